@@ -90,32 +90,8 @@ var magShapes = []netDesc{
 	{Oak: 5, Fix: 7, Asic: 9, Allow: 12, Final: 12, Interval: 600, Tgt: 7, Factor: 1, OakTime: 600}, // no v2 interlude
 }
 
-type located struct{ chain, line int } // trace line -> (chain, index into that chain's lines)
-
-func main() {
-	c := vlib.Start("C13")
-	if c.Replay != "" {
-		replay(c)
-		return
-	}
-	c.Rule("Skeletons: TLC enumerates (network shape with fork heights 2..12) x interval x initial-target class x (background regime b1, one free timestamp choice at every position, background b2) chains of 14 headers; a seeded sample is executed. Random chains: network shape x timestamp regime x seed, up to 3000+ headers, logged in windows (all fork heights, all pre-Oak retargets, periodic windows), plus probes that stop just after a pre-Oak retarget at height 500/1000/1500. Magnitude lattice: TLC (DifficultyMag) enumerates start (one per era and era boundary, 11) x required work (k*2^64/2^128/2^192 minus or plus a little, half/double/four times 2^64b, mainnet magnitude) x cumulative work (the j-th addition carries across limb boundary wb, or plain) x work estimate (retargeting pushes up / down / in balance) x timestamp choice; the harness constructs the state and applies 7 headers; a core (both integer-work eras x every magnitude class with the binding push) is always executed, the rest is a seeded sample stratified by (start, limb boundary). Long chains from genesis at initial difficulties 2^63..2^66, 2^127..2^128, 2^192.., 2^75. One evaluation = one header applied by ApplyHeader and ApplyBlock, with six ValidateHeader candidates and two fork-choice pairs, validated by TLC. Non-trivial = distinct (network, difficulty, oak state, timestamp) step in which the required work changed or which lies at a fork height.")
-	c.Assume("BigNat (spec/lib, cross-checked against TLC integers by BigNatTest) is the arithmetic oracle")
-	c.Assume("initial targets and the ASIC reset target have difficulty < 2^200; above that Work.mul64 overflows by construction (noted, not claimed)")
-	c.Assume("constructed states (magnitude lattice): height, required work, cumulative work, work estimate and oak time are chosen by the specification, the fields of the other representation are their floored inverses (re-checked by TLC on the reset line), the eleven previous timestamps are on schedule; such states are what a network with that initial target / ASIC reset target and enough blocks reaches, headers cannot be mined at these difficulties, so ApplyHeader/ApplyBlock (which do not check proof of work) are driven directly and ValidateHeader is only expected to refuse for insufficient work")
-	c.Assume("networks are well formed: 0 < oak < asic < allow <= final, interval >= 1 s, nonce factor >= 1, ASIC OakTime/OakTarget non-zero")
-	c.Assume("timestamps are whole seconds within 2^29 s of the genesis timestamp; the harness supplies the pre-Oak ancestor timestamp as a node would (1000 blocks back, or genesis)")
-	c.Assume("the header ID (a hash) is taken from the real code; the specification only compares it with the target")
-	c.Assume("the median of fewer than eleven timestamps (heights < 10) is the median of the timestamps that exist; an even count takes the mean of the middle two")
-
-	t0 := time.Now()
-	// 0. BigNat self-check
-	c.MustTLC(vlib.TLCOpts{Module: "BigNatTest", Config: "BigNatTest.cfg"})
-
-	// 1. direction A: TLC chooses the scenarios
-	cfg := "DifficultySkelQuick.cfg"
-	if c.Thorough {
-		cfg = "DifficultySkelThorough.cfg"
-	}
+// loadSkeletons runs DifficultySkel under one configuration and returns the distinct skeletons in canonical order.
+func loadSkeletons(c *vlib.Ctx, cfg string) ([]skeleton, int) {
 	res := c.MustTLC(vlib.TLCOpts{SpecDirs: []string{"pow"}, Module: "DifficultySkel", Config: cfg, Workers: 8, Timeout: 10 * time.Minute})
 	var skels []skeleton
 	for _, ln := range res.Lines {
@@ -148,8 +124,52 @@ func main() {
 			uniq = append(uniq, s)
 		}
 	}
-	skels = uniq
-	c.Cov("skeletons_emitted_by_tlc", len(res.Lines))
+	return uniq, len(res.Lines)
+}
+
+type located struct{ chain, line int } // trace line -> (chain, index into that chain's lines)
+
+func main() {
+	c := vlib.Start("C13")
+	if c.Replay != "" {
+		replay(c)
+		return
+	}
+	c.Rule("Skeletons: TLC enumerates (network shape with fork heights 2..12) x interval x initial-target class x (background regime b1, one free timestamp choice at every position, background b2) chains of 14 headers; a seeded sample is executed. Fork-edge skeletons: the same chains on 12 network shapes in which each fork height in turn (and all together) is 0 or 1, initial-target classes 1, 2, 6, nonce factor 7 or 1009; a seeded round-robin over (shape, class) is executed. Random chains: network shape x timestamp regime x seed, up to 3000+ headers, logged in windows (all fork heights, all pre-Oak retargets, periodic windows), plus probes that stop just after a pre-Oak retarget at height 500/1000/1500. Magnitude lattice: TLC (DifficultyMag) enumerates start (one per era and era boundary, 11) x required work (k*2^64/2^128/2^192 minus or plus a little, half/double/four times 2^64b, mainnet magnitude) x cumulative work (the j-th addition carries across limb boundary wb, or plain) x work estimate (retargeting pushes up / down / in balance) x timestamp choice; the harness constructs the state and applies 7 headers; a core (both integer-work eras x every magnitude class with the binding push) is always executed, the rest is a seeded sample stratified by (start, limb boundary). Long chains from genesis at initial difficulties 2^63..2^66, 2^127..2^128, 2^192.., 2^75. One evaluation = one header applied by ApplyHeader and ApplyBlock, with six ValidateHeader candidates and two fork-choice pairs, validated by TLC. Non-trivial = distinct (network, difficulty, oak state, timestamp) step in which the required work changed or which lies at a fork height.")
+	c.Assume("BigNat (spec/lib, cross-checked against TLC integers by BigNatTest) is the arithmetic oracle")
+	c.Assume("initial targets and the ASIC reset target have difficulty < 2^200; above that Work.mul64 overflows by construction (noted, not claimed)")
+	c.Assume("constructed states (magnitude lattice): height, required work, cumulative work, work estimate and oak time are chosen by the specification, the fields of the other representation are their floored inverses (re-checked by TLC on the reset line), the eleven previous timestamps are on schedule; such states are what a network with that initial target / ASIC reset target and enough blocks reaches, headers cannot be mined at these difficulties, so ApplyHeader/ApplyBlock (which do not check proof of work) are driven directly and ValidateHeader is only expected to refuse for insufficient work")
+	c.Assume("networks: fork heights are naturals (0 = active from genesis; shapes with each fork at 0 and at 1 in turn, and all together, are included), allow <= final, interval >= 1 s, nonce factor >= 1, ASIC OakTime/OakTarget non-zero; the genesis state carries the initial target with the difficulty derived from it in every era")
+	c.Assume("timestamps are whole seconds within 2^29 s of the genesis timestamp; the harness supplies the pre-Oak ancestor timestamp as a node would (1000 blocks back, or genesis)")
+	c.Assume("the header ID (a hash) is taken from the real code; the specification only compares it with the target")
+	c.Assume("the median of fewer than eleven timestamps (heights < 10) is the median of the timestamps that exist; an even count takes the mean of the middle two")
+
+	t0 := time.Now()
+	// 0. BigNat self-check
+	c.MustTLC(vlib.TLCOpts{Module: "BigNatTest", Config: "BigNatTest.cfg"})
+
+	// 1. direction A: TLC chooses the scenarios
+	cfg := "DifficultySkelQuick.cfg"
+	if c.Thorough {
+		cfg = "DifficultySkelThorough.cfg"
+	}
+	// (the shapes whose fork heights are 0 or 1 are explored by a second run, in parallel)
+	zcfg := "DifficultySkelZero.cfg"
+	if c.Thorough {
+		zcfg = "DifficultySkelZeroThorough.cfg"
+	}
+	var zskels []skeleton
+	var zEmitted int
+	zdone := make(chan struct{})
+	go func() {
+		zskels, zEmitted = loadSkeletons(c, zcfg)
+		close(zdone)
+	}()
+	skels, emitted := loadSkeletons(c, cfg)
+	<-zdone
+	c.Cov("skeletons_emitted_by_tlc", emitted)
+	c.Cov("fork_edge_skeletons_emitted_by_tlc", zEmitted)
+	c.Cov("fork_edge_skeletons_distinct", len(zskels))
 	c.Cov("skeletons_distinct", len(skels))
 	if len(skels) < 1000 {
 		c.Fatal("only %d skeletons emitted", len(skels))
@@ -164,6 +184,38 @@ func main() {
 	var descs []chainDesc
 	for i := 0; i < nSkel; i++ {
 		descs = append(descs, skels[i].desc(i))
+	}
+	// 1b. networks whose fork heights are 0 (active from genesis) or 1: a seeded round-robin over (shape, target class);
+	// the nonce factor is never 1 there, so that header admission has something to refuse from the first block on
+	if len(zskels) < 1000 {
+		c.Fatal("only %d fork-edge skeletons emitted", len(zskels))
+	}
+	r.Shuffle(len(zskels), func(i, j int) { zskels[i], zskels[j] = zskels[j], zskels[i] })
+	zcells := map[string][]skeleton{}
+	var znames []string
+	for _, s := range zskels {
+		k := fmt.Sprintf("%02d|%02d", s.Shape, s.Tgt)
+		if zcells[k] == nil {
+			znames = append(znames, k)
+		}
+		zcells[k] = append(zcells[k], s)
+	}
+	sort.Strings(znames)
+	nZero := c.Pick(144, 6000)
+	for round, n := 0, 0; n < nZero; round++ {
+		took := false
+		for _, k := range znames {
+			if round < len(zcells[k]) && n < nZero {
+				d := zcells[k][round].desc(n)
+				d.Net.Factor = []uint64{1009, 7}[(n+round)%2]
+				descs = append(descs, d)
+				n++
+				took = true
+			}
+		}
+		if !took {
+			break
+		}
 	}
 	// 2. long random chains, and probes of the pre-Oak retarget (chains that stop just after a multiple of 500)
 	nLong := c.Pick(5, 100)
@@ -446,11 +498,28 @@ type cover struct {
 	mag                                map[string]map[string]int // clause -> magnitude bucket of the required work -> steps
 	limb                               map[string]map[string]int // "carryW" | "carryUp" | "borrowDown" -> "<clause>/b<limb>" -> steps
 	magSamples                         int
+	edge                               map[string]int // "<fork><0|1>:<candidate>=<outcome>" on networks with that fork height 0 / 1
+}
+
+// forkEdges names the fork heights of a network that are 0 (active from genesis) or 1.
+func forkEdges(d netDesc) (tags []string) {
+	for _, f := range []struct {
+		name string
+		h    uint64
+	}{{"oak", d.Oak}, {"fix", d.Fix}, {"asic", d.Asic}, {"allow", d.Allow}, {"final", d.Final}} {
+		if f.h <= 1 {
+			tags = append(tags, fmt.Sprintf("%s%d", f.name, f.h))
+		}
+	}
+	if d.Oak == 0 && d.Fix == 0 && d.Asic == 0 && d.Allow == 0 && d.Final == 0 {
+		tags = append(tags, "all0")
+	}
+	return
 }
 
 func newCoverage() *cover {
 	return &cover{eras: map[string]int{}, boundaries: map[string]int{}, decisive: map[string]int{}, oakLow: map[string]int{}, distinct: map[string]bool{},
-		mag: map[string]map[string]int{}, limb: map[string]map[string]int{"carryW": {}, "carryUp": {}, "borrowDown": {}}}
+		edge: map[string]int{}, mag: map[string]map[string]int{}, limb: map[string]map[string]int{"carryW": {}, "carryUp": {}, "borrowDown": {}}}
 }
 
 func (cv *cover) add(c *vlib.Ctx, desc chainDesc, cr *chainRun) {
@@ -489,6 +558,12 @@ func (cv *cover) add(c *vlib.Ctx, desc chainDesc, cr *chainRun) {
 		for k, v := range m.decisive {
 			cv.decisive[k+"="+v]++
 			cv.decisive["any="+v]++
+			for _, tag := range forkEdges(d) {
+				cv.edge[tag+":"+k+"="+v]++
+			}
+		}
+		for _, tag := range forkEdges(d) {
+			cv.edge[tag+":steps"]++
 		}
 		atFork := false
 		for name, h := range map[string]uint64{"oak": d.Oak + 1, "fix": d.Fix, "asic": d.Asic, "allow": d.Allow, "final": d.Final} {
@@ -528,6 +603,22 @@ func (cv *cover) report(c *vlib.Ctx) {
 	for _, e := range []string{"ClampOak", "ClampV2", "ClampFinal"} {
 		if cv.oakLow[e] == 0 {
 			c.Infra("vacuity: no %s step starts from an oak time below one second (division guards not exercised)", e)
+		}
+	}
+	// header admission on networks whose fork heights are 0 / 1: every clause decides there, accepted headers exist
+	c.Cov("validateheader_outcomes_on_fork_edge_networks", cv.edge)
+	for _, f := range []string{"oak", "fix", "asic", "allow", "final"} {
+		for _, h := range []string{"0", "1"} {
+			for _, k := range []string{"steps", "honest=accept", "attime=accept", "parent=reject:parent", "time=reject:time", "nonce=reject:nonce", "work=reject:work"} {
+				if cv.edge[f+h+":"+k] == 0 {
+					c.Infra("vacuity: on networks with the %s fork at height %s, %s never observed", f, h, k)
+				}
+			}
+		}
+	}
+	for _, k := range []string{"steps", "honest=accept", "nonce=reject:nonce", "time=reject:time", "work=reject:work"} {
+		if cv.edge["all0:"+k] == 0 {
+			c.Infra("vacuity: on the network with every fork at height 0, %s never observed", k)
 		}
 	}
 	c.Cov("steps_per_clause_and_magnitude", cv.mag)
